@@ -318,6 +318,29 @@ def repeat_cases(rng, n):
         out.append((case(f, a, rows, cols), case(f, b, rows, cols)))
     return out
 
+def undo_cases(rng, n):
+    """vi commands that change the text, motions between them, u and ^R; some with the ruler switched off or
+    restricted (`:se noru`, `ru=0/2/4`: the ruler must not be what separates the undo steps) (C04)"""
+    out = []
+    ch = [b"x", b"3x", b"dd", b"dw", b"D", b"ifoo \x1b", b"abar\x1b", b"Aend\x1b", b"onew\x1b", b"Oabove\x1b", b"ia\nb\x1b", "iéé\x1b".encode(), b"p", b"P", b"J", b"rZ", b"~",
+          b">>", b"<<", b"cwNEW\x1b", b"ccline\x1b", b"sX\x1b", b"yyp", b"ddp", b"2dd", b">j", b"3J", b"xp", b"g~w", b"dG", b"dk"]
+    mv = [b"j", b"k", b"w", b"0", b"$", b"G", b"1G", b"l", b"b", b""]
+    for i in range(n):
+        f = gen_file(rng)
+        if f is None or len(f) < 4: f = b"one two\nthree four\nfive\n  six\nseven\n"
+        rows, cols = geometry(rng)
+        parts = []
+        if rng.below(3) == 0: parts.append(rng.pick([b":se noru\n", b":se ru=0\n", b":se ru=2\n", b":se ru=4\n", b":se ru=1\n"]))
+        for _ in range(2 + rng.below(8)):
+            r = rng.below(10)
+            if r < 5: parts.append(rng.pick(mv) + rng.pick(ch))
+            elif r < 8: parts.append(b"u" * (1 + rng.below(3)))
+            elif r < 9: parts.append(b"\x12")
+            else: parts.append(rng.pick(mv))
+        parts.append(b"u" * rng.below(4))
+        out.append(case(f, b"".join(parts), rows, cols))
+    return out
+
 def op_cases(rng, n, maxcmds=7):
     """operators with motions that mostly succeed, register prefixes, puts, joins, replaces, plain inserts (C08)"""
     out = []
